@@ -146,6 +146,29 @@ uint32_t STUB(snprintf)(uint8_t* buf, uint64_t cap, uint8_t* fmt, ...) {
 #undef PUT
   return (uint32_t)n;
 }
+/* strtoull (std::stoull in the P7 header parser): base 10, C-locale, exact incl. overflow -> ULLONG_MAX/ERANGE.  In the real
+ * build the libc function itself is used (strtoul is the same function on LP64; the native driver also calls strtoull). */
+#ifdef VERIF_NATIVE_REAL
+unsigned long strtoul(const char*, char**, int);
+uint64_t strtoull(uint8_t* s, uint8_t** end, uint32_t base) { return strtoul((const char*)s, (char**)end, (int)base); }
+#else
+uint8_t* X___errno_location(void);
+uint64_t X_strtoull(uint8_t* s, uint8_t** end, uint32_t base) {
+  ASSERT(base == 10, "UNMODELLED strtoull base");
+  uint32_t i = 0; int neg = 0;
+  while (s[i] == ' ' || (s[i] >= 9 && s[i] <= 13)) i++;
+  if (s[i] == '+' || s[i] == '-') { neg = s[i] == '-'; i++; }
+  uint64_t v = 0; uint32_t nd = 0; int ovf = 0;
+  while (s[i] >= '0' && s[i] <= '9') {
+    uint64_t d = (uint64_t)(s[i] - '0');
+    if (v > (18446744073709551615ULL - d) / 10) ovf = 1; else v = v * 10 + d;
+    i++; nd++;
+  }
+  if (end) *end = nd ? s + i : s;
+  if (ovf) { *(int*)X___errno_location() = 34; return 18446744073709551615ULL; }
+  return neg ? (uint64_t)0 - v : v;
+}
+#endif
 #ifndef VERIF_NATIVE_REAL
 /* phosg::string_printf is cut out of the generated C (it only builds exception messages from decimal conversions, which
  * the vasprintf model does not cover): it returns an empty std::string (SSO layout: pointer to the local buffer, size 0). */
